@@ -419,8 +419,8 @@ class C16:
                 print("[%s] ERROR: the harness does not build against the repository's working tree with %s" % (pid, what))
                 write_evidence(pid, tier, seed, dict(obligations=proof["obligations"], discharged=0, checker_cmd="make Props/%s.vo" % pid,
                                                      trusted_base=TRUSTED, evaluations=0, distinct_nontrivial=0, rule=self.rule, samples=[],
-                                                     explanation="harness build failed: " + what), self.assumptions, time.time() - t0, 0)
-                return 2
+                                                     explanation="harness build failed: " + what), self.assumptions, time.time() - t0, 1)
+                return harness_broken(pid, tier, seed, out_h)
             bins.append(binp)
         if not os.path.exists(os.path.join(COQ, "Spec", "SpecC16.vo")):
             print("[%s] ERROR: Spec/SpecC16.vo was not built" % pid)
